@@ -303,30 +303,33 @@ func (b Branch) CopyEmpty() *Branch {
 }
 
 func (b *Branch) IntersectHash(other *Branch) *bitcoin.Hash32 {
-	current := b
-	for {
-		if current.parent == nil {
-			break
-		}
-
-		if current.parent == other {
-			return &current.firstHeader.PrevBlock
-		}
-
-		current = current.parent
+	// Highest height in each ancestor branch that is part of this branch's chain.
+	heights := make(map[*Branch]int)
+	height := b.Height()
+	for current := b; current != nil; current = current.parent {
+		heights[current] = height
+		height = current.parentHeight
 	}
 
-	current = other
-	for {
-		if current.parent == nil {
-			break
+	// Find the first branch in the other branch's ancestry that is shared. The lower of the two
+	// heights in that branch is the last header the chains have in common. This also covers
+	// branches that are siblings or cousins and not only ancestors of each other.
+	height = other.Height()
+	for current := other; current != nil; current = current.parent {
+		if sharedHeight, exists := heights[current]; exists {
+			if height < sharedHeight {
+				sharedHeight = height
+			}
+
+			at := current.AtHeight(sharedHeight)
+			if at == nil {
+				return nil
+			}
+
+			return &at.Hash
 		}
 
-		if current.parent == b {
-			return &current.firstHeader.PrevBlock
-		}
-
-		current = current.parent
+		height = current.parentHeight
 	}
 
 	return nil
